@@ -3,7 +3,7 @@
 #![allow(dead_code)]
 use serde_json::{json, Value};
 
-#[derive(Clone, Debug)]
+#[derive(Clone, Debug, Default)]
 pub struct CpuDesc {
     pub af: u16,
     pub bc: u16,
